@@ -119,6 +119,9 @@ def numba_newton_raphson(
     # Is the root bounded?
     root_bounded = func_at_bounds[0] * func_at_bounds[1] < 0
 
+    # Was the previous step within the tolerances? (see convergence check below)
+    previous_step_small = False
+
     # Start iteration.
     for current_iteration in range(1, max_iterations):
         # Evaluate the function at the latest iterate. First roll the list...
@@ -248,14 +251,16 @@ def numba_newton_raphson(
                 iterates[2],
             )
 
-        if (
-            (absolute_difference < atol)
-            and (relative_difference < rtol)
-            and not aitken_step
-        ):
+        step_small = (absolute_difference < atol) and (relative_difference < rtol)
+        if step_small and previous_step_small and not aitken_step:
             # (a small Aitken extrapolation step says nothing about the distance to
             # the root- as in the fixed point solvers we do not stop on those)
+            #
+            # We require two consecutive small steps: a single small step is not an
+            # error estimate when the derivative came from a secant through a far away
+            # iterate (e.g. right after a step that was cut back at the bounds).
             break
+        previous_step_small = step_small
 
     else:
         if error_on_max_iter:
